@@ -88,12 +88,13 @@ def b_len(I, fv, args, kwargs, node):
             if not o.open:
                 return Const(len(o.entries))
             sym = f"len({o.label or v.addr})"
-            if o.entries:
+            if o.entries or I.open_nonempty(o):
                 I.assume("cmp:Gt:" + sym, True)
                 I.assume("cmp:Lt:" + sym, False)
                 I.assume("cmp:Eq:" + sym, False)
                 I.assume("sign:" + sym, 1)
-            return Num(Poly.sym(sym), True)
+                return Num(Poly.sym(sym), True)
+            return Const(0)
         if isinstance(o, AList):
             if not I.list_nonempty(o):
                 return Const(0)
